@@ -22,6 +22,10 @@
 // is a tuple of integers, a column of kind K holds their image under a strictly
 // increasing map into the values of K spread over the whole width of the type.
 //
+// A sorting column may be the leaf below one or two optional groups (c09Col.Nest):
+// maximum definition level up to 3, a null key is a null at one of the levels
+// below it (c09Col.NullDef, c09NullLevel).
+//
 // The inputs of MergeRowGroups are also row groups built from the inputs of the
 // case (nested.go): merged, merged and deduplicated, MultiRowGroup,
 // ConvertRowGroup wrappers, row groups of a wider schema, one to three levels.
@@ -60,6 +64,47 @@ type c09Col struct {
 	// A column of kind Type holds emb(ordinal - Bias).
 	Type string `json:"type,omitempty"`
 	Bias int64  `json:"bias,omitempty"`
+	// Nest > 0: the sorting column is the leaf "v" below Nest optional groups (k<j>.v, k<j>.g.v): its
+	// maximum definition level is Nest (+1 when the leaf itself is optional) and a null key is a null at
+	// one of the levels below the maximum.  NullDef tells which: 0 = any level (a function of seed, input
+	// and row), 1 = the outermost group is null (level 0), 2 = an intermediate level only (>= 1: some
+	// group present, something below it null; needs a maximum level >= 2).
+	Nest    int `json:"nest,omitempty"`
+	NullDef int `json:"null_def,omitempty"`
+}
+
+func (col c09Col) maxDef() int {
+	d := col.Nest
+	if col.Optional {
+		d++
+	}
+	return d
+}
+
+func (col c09Col) nullable() bool { return col.maxDef() > 0 }
+
+// path of sorting column j in the row schema
+func (col c09Col) path(j int) []string {
+	p := []string{fmt.Sprintf("k%d", j)}
+	if col.Nest > 0 {
+		for i := 1; i < col.Nest; i++ {
+			p = append(p, "g")
+		}
+		p = append(p, "v")
+	}
+	return p
+}
+
+// c09NullLevel: the definition level of the null key of row seq of input in, in sorting column j
+func c09NullLevel(col c09Col, seed int64, in, seq, j int) int {
+	m := col.maxDef()
+	switch {
+	case m <= 1 || col.NullDef == 1:
+		return 0
+	case col.NullDef == 2:
+		return 1 + c09NewHash(seed, in, seq, 1000+j).intn(m-1)
+	}
+	return c09NewHash(seed, in, seq, 1000+j).intn(m)
 }
 
 // a key: one entry per sorting column, nil = null
@@ -459,7 +504,7 @@ func c09NewSchema(cols []c09Col, extras []c09Extra, extraSeed int64) *c09Schema 
 	s := &c09Schema{cols: cols, extras: extras, extraSeed: extraSeed, keyLeaf: make([]int, len(cols))}
 	for j, col := range cols {
 		name := fmt.Sprintf("k%d", j)
-		f := c09Field{name: name, role: c09RoleKey, idx: j, leaves: []c09LeafDef{{path: []string{name}}}}
+		f := c09Field{name: name, role: c09RoleKey, idx: j, leaves: []c09LeafDef{{path: col.path(j), maxDef: col.maxDef()}}}
 		f.node = parquet.Int(64)
 		if col.typed() {
 			if k := c09KindOf(col.Type); k != nil {
@@ -470,14 +515,16 @@ func c09NewSchema(cols []c09Col, extras []c09Extra, extraSeed int64) *c09Schema 
 		}
 		if col.Optional {
 			f.node = parquet.Optional(f.node)
-			f.leaves[0].maxDef = 1
+		}
+		for p := col.path(j); len(p) > 1; p = p[:len(p)-1] {
+			f.node = parquet.Optional(parquet.Group{p[len(p)-1]: f.node})
 		}
 		s.fields = append(s.fields, f)
 		var sc parquet.SortingColumn
 		if col.Desc {
-			sc = parquet.Descending(name)
+			sc = parquet.Descending(col.path(j)...)
 		} else {
-			sc = parquet.Ascending(name)
+			sc = parquet.Ascending(col.path(j)...)
 		}
 		if col.NullsFirst {
 			sc = parquet.NullsFirst(sc)
@@ -551,13 +598,10 @@ func (s *c09Schema) row(key c09Key, in, seq int) parquet.Row {
 		switch f.role {
 		case c09RoleKey:
 			col, k := s.cols[f.idx], key[f.idx]
-			def := 0
-			if col.Optional {
-				def = 1
-			}
+			def := col.maxDef()
 			switch {
-			case col.Optional && k == nil:
-				row = append(row, parquet.NullValue().Level(0, 0, ci))
+			case col.nullable() && k == nil:
+				row = append(row, parquet.NullValue().Level(0, c09NullLevel(col, s.extraSeed, in, seq, f.idx), ci))
 			case col.typed():
 				kd := c09KindOf(col.Type)
 				row = append(row, kd.val(c09KeyTV(col, kd, *k, in, seq)).Level(0, def, ci))
@@ -630,13 +674,19 @@ func (s *c09Schema) decode(row parquet.Row) c09Out {
 		}
 		return row[start[ci]], true
 	}
+	nullDef := make([]int, len(s.cols))
 	for j := range s.cols {
 		v, ok := one(s.keyLeaf[j], "sorting column")
 		if !ok {
 			return o
 		}
 		if v.IsNull() {
+			nullDef[j] = v.DefinitionLevel()
 			continue
+		}
+		if v.DefinitionLevel() != s.cols[j].maxDef() {
+			o.Bad = fmt.Sprintf("sorting column %d holds a value at definition level %d (maximum %d): %v", j, v.DefinitionLevel(), s.cols[j].maxDef(), row)
+			return o
 		}
 		if col := s.cols[j]; col.typed() {
 			kd := c09KindOf(col.Type)
@@ -674,6 +724,15 @@ func (s *c09Schema) decode(row parquet.Row) c09Out {
 	if want := c09Tag(o.In, o.Seq, o.Key); tag != want {
 		o.Bad = fmt.Sprintf("the payload of the row is %q, the row written was %q", tag, want)
 		return o
+	}
+	// a null key is null at the level it was written with
+	for j, col := range s.cols {
+		if o.Key[j] == nil {
+			if want := c09NullLevel(col, s.extraSeed, o.In, o.Seq, j); nullDef[j] != want {
+				o.Bad = fmt.Sprintf("sorting column %d of row %d of input %d is null at definition level %d, the row written held a null at level %d", j, o.Seq, o.In, nullDef[j], want)
+				return o
+			}
+		}
 	}
 	// the key values are, bit for bit, the ones written in that row (the sign of a zero included)
 	for j, col := range s.cols {
@@ -1312,9 +1371,9 @@ func c09CanonPlan(ans string) string {
 // reports it (the schema columns are sorted by name; extra columns may lie
 // before and between the sorting columns).
 func (s *c09Schema) sortingLeaf(j int) int {
-	name := fmt.Sprintf("k%d", j)
+	name := strings.Join(s.cols[j].path(j), ".")
 	for i, path := range s.schema.Columns() {
-		if len(path) == 1 && path[0] == name {
+		if strings.Join(path, ".") == name {
 			return i
 		}
 	}
@@ -1673,8 +1732,11 @@ func c09Valid(cs *c09Case) bool {
 		return false
 	}
 	names := map[string]bool{"p_in": true, "p_seq": true, "p_tag": true}
-	for j := range cs.Cols {
+	for j, col := range cs.Cols {
 		names[fmt.Sprintf("k%d", j)] = true
+		if col.Nest < 0 || col.Nest > 2 || col.NullDef < 0 || col.NullDef > 2 {
+			return false
+		}
 	}
 	for _, x := range cs.Extras {
 		if _, _, ok := c09ExtraField(x.Name, x.Shape); !ok || x.Name == "" || names[x.Name] {
@@ -1691,7 +1753,7 @@ func c09Valid(cs *c09Case) bool {
 				return false
 			}
 			for j, v := range k {
-				if v == nil && !cs.Cols[j].Optional {
+				if v == nil && !cs.Cols[j].nullable() {
 					return false
 				}
 				if col := cs.Cols[j]; v != nil && col.typed() {
@@ -2080,6 +2142,24 @@ var c09ColConfigs = [][]c09Col{
 	{{}, {Desc: true}, {}},
 	{{Desc: true}, {}, {Optional: true, Desc: true}},
 	{{Optional: true, NullsFirst: true}, {Desc: true}, {Optional: true}},
+	// sorting columns below optional groups (maximum definition level 1..3, nulls at every level)
+	{{Optional: true, Nest: 1}},
+	{{Optional: true, Nest: 1, NullDef: 2, NullsFirst: true}},
+	{{Optional: true, Nest: 2, Desc: true}},
+	{{Nest: 2, NullDef: 2}, {Optional: true, Nest: 1}},
+	{{Nest: 1}, {Optional: true, Nest: 2, NullDef: 2, Desc: true}},
+}
+
+// c09GenNestCols: one to three sorting columns, the first below nest optional groups with an optional or
+// required leaf and the given placement of the nulls among the definition levels; the later columns of
+// random nesting.
+func c09GenNestCols(intn func(int) int, nest int, optional bool, nullDef int) []c09Col {
+	rb := func() bool { return intn(2) == 0 }
+	cols := []c09Col{{Nest: nest, Optional: optional, NullDef: nullDef, Desc: intn(3) == 0, NullsFirst: rb()}}
+	for n := []int{0, 0, 1, 2}[intn(4)]; n > 0; n-- {
+		cols = append(cols, c09Col{Nest: intn(3), Optional: rb(), NullDef: intn(3), Desc: intn(3) == 0, NullsFirst: rb()})
+	}
+	return cols
 }
 
 // c09GenExtras: 1..max extra columns of random shapes at random positions
@@ -2118,7 +2198,7 @@ func c09MaybeKinds(c *core.Ctx, cs *c09Case, p int) *c09Case {
 func c09GenKey(c *core.Ctx, cols []c09Col, lo, hi int64) c09Key {
 	k := make(c09Key, len(cols))
 	for j, col := range cols {
-		if col.Optional && c.Rng.Intn(6) == 0 {
+		if col.nullable() && c.Rng.Intn(6) == 0 {
 			continue
 		}
 		var v int64
@@ -2163,7 +2243,7 @@ func c09GenInputs(c *core.Ctx, cols []c09Col, k int, pattern string, lens []int)
 		for r := 0; r < n; r++ {
 			ks = append(ks, c09GenKey(c, cols, lo, hi))
 		}
-		if pattern == "touching" && n >= 2 && !cols[0].Optional {
+		if pattern == "touching" && n >= 2 && !cols[0].nullable() {
 			// make the bounds exact so that max of one = min of the next
 			a, b := lo, hi
 			ks[0][0], ks[1][0] = &a, &b
@@ -2253,7 +2333,7 @@ func c09GenRunInputs(c *core.Ctx, cols []c09Col, k, total, maxRun int) [][]c09Ke
 			}
 			key[0] = &x
 			for j := 1; j < len(cols); j++ {
-				if cols[j].Optional && c.Rng.Intn(6) == 0 {
+				if cols[j].nullable() && c.Rng.Intn(6) == 0 {
 					continue
 				}
 				y := c.Rng.Int63n(3)
@@ -2601,7 +2681,7 @@ func c09FixedSeq(seed uint64) func(int) int {
 // ranges overlap at the boundaries, touch, contain the next one or are disjoint.
 func c09GenBig(c *core.Ctx) *c09Case {
 	k := 2 + c.Rng.Intn(3)
-	cols := [][]c09Col{{{}}, {{}}, {{Desc: true}}, {{}, {}}, {{Optional: true}}, {{Desc: true}, {}}, {{}, {Desc: true}, {}}, {{Desc: true}, {Desc: true}}}[c.Rng.Intn(8)]
+	cols := [][]c09Col{{{}}, {{}}, {{Desc: true}}, {{}, {}}, {{Optional: true}}, {{Desc: true}, {}}, {{}, {Desc: true}, {}}, {{Desc: true}, {Desc: true}}, {{Optional: true, Nest: 1, NullDef: 2}}, {{Nest: 2}, {}}}[c.Rng.Intn(10)]
 	ins := make([][]c09Key, k)
 	base := int64(0)
 	for j := 0; j < k; j++ {
@@ -2639,12 +2719,13 @@ func c09GenBig(c *core.Ctx) *c09Case {
 			c09SortKeys(cols, ins[j])
 		}
 	}
-	if cols[0].Optional && c.Rng.Intn(2) == 0 {
+	if cols[0].nullable() && c.Rng.Intn(2) == 0 {
 		// some nulls at the end of one input
 		j := c.Rng.Intn(k)
 		for r := len(ins[j]) - 3; r < len(ins[j]); r++ {
-			ins[j][r] = make(c09Key, len(cols))
+			ins[j][r] = append(c09Key{nil}, ins[j][r][1:]...)
 		}
+		c09SortKeys(cols, ins[j])
 	}
 	c.Rng.Shuffle(len(ins), func(a, b int) { ins[a], ins[b] = ins[b], ins[a] })
 	backing := make([]string, k)
@@ -2657,6 +2738,49 @@ func c09GenBig(c *core.Ctx) *c09Case {
 		cs.Extras, cs.ExtraSeed = c09GenExtras(c.Rng.Intn, 2)
 	}
 	return c09MaybeKinds(c, cs, 3)
+}
+
+// c09SplitIntoConcats turns inputs of a case (one chosen at random, each of the others one time in two)
+// into concatenations (multi nodes) of two or three consecutive pieces cut at uniformly chosen rows - members
+// of different row counts, each a file of its own with its own pages - one time in four with the last two
+// pieces in a concatenation of their own.  The case gets a forest (Tree) over the pieces.
+func c09SplitIntoConcats(intn func(int) int, cs *c09Case) {
+	old := cs.Inputs
+	backing := cs.Backing
+	cs.Inputs, cs.Backing, cs.Tree = nil, nil, nil
+	forced := intn(len(old))
+	for i, keys := range old {
+		leaf := func(ks []c09Key) c09Node {
+			cs.Inputs = append(cs.Inputs, ks)
+			b := "buffer"
+			if i < len(backing) {
+				b = backing[i]
+			}
+			cs.Backing = append(cs.Backing, b)
+			return c09Node{Op: "leaf", Leaf: len(cs.Inputs) - 1}
+		}
+		if (i != forced && intn(2) == 0) || len(keys) < 4 {
+			cs.Tree = append(cs.Tree, leaf(keys))
+			continue
+		}
+		cuts := []int{1 + intn(len(keys)-1)}
+		if intn(2) == 0 {
+			cuts = append(cuts, 1+intn(len(keys)-1))
+			sort.Ints(cuts)
+		}
+		cuts = append(cuts, len(keys))
+		n := c09Node{Op: "multi"}
+		at := 0
+		for _, end := range cuts {
+			n.Kids = append(n.Kids, leaf(keys[at:end]))
+			at = end
+		}
+		if len(n.Kids) == 3 && intn(4) == 0 {
+			n.Kids = []c09Node{n.Kids[0], {Op: "multi", Kids: n.Kids[1:]}}
+		}
+		cs.Tree = append(cs.Tree, n)
+	}
+	cs.Note += " concatenated"
 }
 
 // ---- cases.v ---------------------------------------------------------------
@@ -2710,7 +2834,7 @@ func c09VmCase(cs *c09Case, out [][]c09Out, used []int) string {
 // ---- main ------------------------------------------------------------------
 
 func runC09(c *core.Ctx) {
-	c.Res.Rule = "k = 0..9 sorted inputs generated from overlap patterns (random, disjoint, touching: max of one = min of the next, nested, identical, dense duplicates, chains, long runs; empty inputs; duplicate keys within and across inputs) over key configurations (one to three sorting columns, ascending/descending and mixed directions, required/optional with nulls first/last), input lengths around the buffer sizes 24/48/96/192, ReadRows slice lengths uniform in 1..64 or from {1,2,3,23,24,25,64,191,192,193} (1-3 of them, cycled) and scripted source chunkings. Row schema: a parquet.Group (fields ordered by name) with the sorting columns k0.., the payload p_in/p_seq/p_tag and, in one case in three (one in four of the large cases, all of the extras/ buckets), 1-3 extra non-key columns whose names place their leaves before the first sorting column, between k0 and k1, between the keys and the payload or after the payload, of the shapes required / optional / string leaf, repeated leaf, LIST (required and optional), group (required, optional, repeated: two leaves each) and a repeated leaf inside a repeated group; a row holds 0..3 values per repeated leaf (rep2: up to 4), so the index of a value within the row differs from its column index; the values are a function of (seed, input, seq) and every output row is checked value by value, levels included (row-mangled). extras/<shape>@<position>: every shape at every position through MergeRowReaders (2 and 3-6 readers), MergeRowGroups over buffers, over files, with DropDuplicatedRows, and DedupeRowReader. readers/turns, groups/turns: 2 and 3-7 inputs that take turns in runs of 1..40 rows (every run ends inside the buffered window, ties at one run start in three) read with every slice length 1..64 (run mode: runLength / emitRun). readers: parquet.MergeRowReaders over scripted in-memory readers, emitted (input,seq) batches == model (2-way: c09.merge2, k>2: c09.mergek); dedupe: parquet.DedupeRowReader == model; groups: parquet.MergeRowGroups over Buffers and files with small pages (refinement on and off), with and without DropDuplicatedRows, read through Rows() and written with WriteRowGroup then read back; large file-backed cases (2-4 inputs of 1100-5000 rows, PageBufferSize 256..4096 = pages of 50..550 rows): random chains (overlapping, touching, containing, disjoint) and, every other case and 10 fixed corpus cases, shapes built around the boundary cases of the cut lookups of merge_refine.go over two or three required int64 sorting columns (first ascending or descending, the later ones ascending or descending independently): tie-lower (A ends at (v, big) or with a long run of v; B has a run of v spanning several pages of its first column - after a random prefix below v, after a prefix that ends exactly at a page boundary so that a page starts at the first row with value v, or from its first row - with small second-column values, then a lone stretch of >= 1100 rows (sometimes 300-1200, around minStreamedRegionRows = 1024), optionally a third input starting at a long run of B's last value), tie-upper (B alone before C starts at (w, small), B with a run of w spanning pages), tie-chain (3-4 inputs each starting with a run of the previous one's last value), touching (max of one = min of the next), nested (a small row group inside a big one that has lone stretches on both sides, with runs of the small one's first / last value in the big one), identical first-column values everywhere; the arguments are shuffled. For every groups case without DropDuplicatedRows and with refinement enabled the plan Go built is compared with the model (corr:C09.refine, Merge/Refine.v c09_refine): the elements of rowGroupSegments (field `segments` of the *sortedSegmentRowGroup read with reflect+unsafe, or the merged row group itself as the single element) are read one by one through their own Rows() and turned into parts (input, first seq, rows) - the rows of an input inside an element must be an ascending contiguous range (plan-piece-not-a-range) - and must equal the model's pieces (parts sorted by input on both sides, order of the pieces kept); the model is given the keys, the page layout of every sorting column (offset index of the row groups as wrapped by ConvertRowGroup; a Buffer is one page) and whether newCutLookups yields lookups for the first sorting column (its conditions evaluated on the column chunk); buckets refine/plan-sliced (the Go plan contains a row-range part) / plan-unsliced, +tie-at-page-start / -end when a page of the first sorting column of an input starts (ends) with the first-column value of the last (first) row of another input. Failing large cases are shrunk with a small budget (120 probes, the first three of a run only), keeping the kind of failure. Kinds of sorting columns (types/<kind>: every kind as the first column ascending / descending, required / optional with nulls first / last, followed by a column of another kind, and as the second column behind a default column with few values; through MergeRowReaders with Schema.Comparator (2 and 3-6 readers), MergeRowGroups over buffers, files with small pages, with DropDuplicatedRows, and DedupeRowReader; one case in four of the random readers / turns / dedupe / groups / nested cases and one in three of the large random cases give each column a random kind with probability 1/2; every other large tie case gives the first (one in three: also the second) column a kind of 8 bytes per value): boolean, int32 (plain), INT(8/16/32/64), UINT(8/16/32/64), int64 (plain), float, double, byte array, STRING, ENUM, FIXED_LEN_BYTE_ARRAY(5), FIXED_LEN_BYTE_ARRAY(16), UUID, DATE, TIME(MILLIS/MICROS/NANOS), TIMESTAMP(MILLIS/MICROS/NANOS), DECIMAL on int32 / int64 / FIXED_LEN_BYTE_ARRAY(9) / FIXED_LEN_BYTE_ARRAY(16) / byte array. A key stays a tuple of integers (the ordinals the model compares); a column of kind K holds emb_K(ordinal - bias), emb_K strictly increasing from at most [-32768, 32767] into the values of K in the order of the parquet format (signed; unsigned for UINT; IEEE numeric for float / double, no NaN, the zero written as -0 in every other row; unsigned lexicographic bytes, a proper prefix first; signed big-endian two's complement for DECIMAL on bytes, 3..8 bytes on byte arrays) and spread over the whole width: ordinal * 2^16 (2^48) plus hashed low bits for 32 (64) bit integers, negative ordinals to negative values / to the lower half of the unsigned range / to bytes below 0x80, float bit patterns from subnormals to 3e38 (1e308), times of day over the whole day (neighbouring TIME(NANOS) ordinals differ above bit 30), byte strings of 2..23 bytes (longer than the 16 bytes a column index keeps), the two halves of 16-byte values both significant; the bias is an ordinal present in the case (three times in four), the ordinals are clamped into the domain of the kind (boolean: two values). types.go checks at start, exhaustively over every domain, that emb_K is strictly increasing for the harness comparator and survives parquet.Value. Every output row is decoded to Go values (Value.Int32 / Int64 / Float / Double / Boolean / ByteArray), must be bit for bit the value written in that row (row-mangled), and the sortedness is decided by the harness comparator on those values (not Type.Compare). Nested inputs (nested/depth=N, corpus/nested): the inputs of MergeRowGroups given as a forest over the sorted inputs of the case - merge (MergeRowGroups of the children), dedupe (with DropDuplicatedRows), multi (MultiRowGroup of consecutive pieces of one sorted sequence), convert (ConvertRowGroup to the schema of the merge of a subtree built in a wider schema: two more columns, one before the sorting columns), wide (that subtree handed over as it is) - one to three levels, 2-4 roots, leaves buffers or files, with and without DropDuplicatedRows / refinement at the root; corpus: merge(merge(A[0..99],B[40..59]),C[70..79]) (4f9d711) in nine shapes over buffers and files. Every node is read through its own Rows() and checked: a leaf / multi node delivers the rows written in order, a merge / dedupe node and the root (Rows() and the file written with WriteRowGroup) satisfy the statement at the level of the leaves: sorted, whole rows of the leaves below, none twice, every leaf's rows in their order, keys = the keys the inputs must deliver (one per distinct key under a dedupe). The plan of the root (without DropDuplicatedRows, refinement enabled) is compared with the model (corr:C09.refine, c09.nrefine = Merge/Nested.v c09_refine_nested): the harness tells the model which inputs have computed rows (dynamic type not a Buffer / FileRowGroup / row-range view / conversion of one) - then one element holding every input whole - and otherwise the model is c09_refine. The property predicate (sorted, multiset = union with whole rows intact, per-input order; dedupe: one row per distinct key, each an input row) is evaluated on every output with the harness's own comparator. A case is one (inputs, scripts, options); non-trivial = at least two non-empty inputs (dedupe: one); distinct by the JSON of the case."
+	c.Res.Rule = "k = 0..9 sorted inputs generated from overlap patterns (random, disjoint, touching: max of one = min of the next, nested, identical, dense duplicates, chains, long runs; empty inputs; duplicate keys within and across inputs) over key configurations (one to three sorting columns, ascending/descending and mixed directions, required/optional with nulls first/last), input lengths around the buffer sizes 24/48/96/192, ReadRows slice lengths uniform in 1..64 or from {1,2,3,23,24,25,64,191,192,193} (1-3 of them, cycled) and scripted source chunkings. Row schema: a parquet.Group (fields ordered by name) with the sorting columns k0.., the payload p_in/p_seq/p_tag and, in one case in three (one in four of the large cases, all of the extras/ buckets), 1-3 extra non-key columns whose names place their leaves before the first sorting column, between k0 and k1, between the keys and the payload or after the payload, of the shapes required / optional / string leaf, repeated leaf, LIST (required and optional), group (required, optional, repeated: two leaves each) and a repeated leaf inside a repeated group; a row holds 0..3 values per repeated leaf (rep2: up to 4), so the index of a value within the row differs from its column index; the values are a function of (seed, input, seq) and every output row is checked value by value, levels included (row-mangled). extras/<shape>@<position>: every shape at every position through MergeRowReaders (2 and 3-6 readers), MergeRowGroups over buffers, over files, with DropDuplicatedRows, and DedupeRowReader. readers/turns, groups/turns: 2 and 3-7 inputs that take turns in runs of 1..40 rows (every run ends inside the buffered window, ties at one run start in three) read with every slice length 1..64 (run mode: runLength / emitRun). readers: parquet.MergeRowReaders over scripted in-memory readers, emitted (input,seq) batches == model (2-way: c09.merge2, k>2: c09.mergek); dedupe: parquet.DedupeRowReader == model; groups: parquet.MergeRowGroups over Buffers and files with small pages (refinement on and off), with and without DropDuplicatedRows, read through Rows() and written with WriteRowGroup then read back; large file-backed cases (2-4 inputs of 1100-5000 rows, PageBufferSize 256..4096 = pages of 50..550 rows): random chains (overlapping, touching, containing, disjoint) and, every other case and 10 fixed corpus cases, shapes built around the boundary cases of the cut lookups of merge_refine.go over two or three required int64 sorting columns (first ascending or descending, the later ones ascending or descending independently): tie-lower (A ends at (v, big) or with a long run of v; B has a run of v spanning several pages of its first column - after a random prefix below v, after a prefix that ends exactly at a page boundary so that a page starts at the first row with value v, or from its first row - with small second-column values, then a lone stretch of >= 1100 rows (sometimes 300-1200, around minStreamedRegionRows = 1024), optionally a third input starting at a long run of B's last value), tie-upper (B alone before C starts at (w, small), B with a run of w spanning pages), tie-chain (3-4 inputs each starting with a run of the previous one's last value), touching (max of one = min of the next), nested (a small row group inside a big one that has lone stretches on both sides, with runs of the small one's first / last value in the big one), identical first-column values everywhere; the arguments are shuffled. For every groups case without DropDuplicatedRows and with refinement enabled the plan Go built is compared with the model (corr:C09.refine, Merge/Refine.v c09_refine): the elements of rowGroupSegments (field `segments` of the *sortedSegmentRowGroup read with reflect+unsafe, or the merged row group itself as the single element) are read one by one through their own Rows() and turned into parts (input, first seq, rows) - the rows of an input inside an element must be an ascending contiguous range (plan-piece-not-a-range) - and must equal the model's pieces (parts sorted by input on both sides, order of the pieces kept); the model is given the keys, the page layout of every sorting column (offset index of the row groups as wrapped by ConvertRowGroup; a Buffer is one page) and whether newCutLookups yields lookups for the first sorting column (its conditions evaluated on the column chunk); buckets refine/plan-sliced (the Go plan contains a row-range part) / plan-unsliced, +tie-at-page-start / -end when a page of the first sorting column of an input starts (ends) with the first-column value of the last (first) row of another input. Failing large cases are shrunk with a small budget (120 probes, the first three of a run only), keeping the kind of failure. Kinds of sorting columns (types/<kind>: every kind as the first column ascending / descending, required / optional with nulls first / last, followed by a column of another kind, and as the second column behind a default column with few values; through MergeRowReaders with Schema.Comparator (2 and 3-6 readers), MergeRowGroups over buffers, files with small pages, with DropDuplicatedRows, and DedupeRowReader; one case in four of the random readers / turns / dedupe / groups / nested cases and one in three of the large random cases give each column a random kind with probability 1/2; every other large tie case gives the first (one in three: also the second) column a kind of 8 bytes per value): boolean, int32 (plain), INT(8/16/32/64), UINT(8/16/32/64), int64 (plain), float, double, byte array, STRING, ENUM, FIXED_LEN_BYTE_ARRAY(5), FIXED_LEN_BYTE_ARRAY(16), UUID, DATE, TIME(MILLIS/MICROS/NANOS), TIMESTAMP(MILLIS/MICROS/NANOS), DECIMAL on int32 / int64 / FIXED_LEN_BYTE_ARRAY(9) / FIXED_LEN_BYTE_ARRAY(16) / byte array. A key stays a tuple of integers (the ordinals the model compares); a column of kind K holds emb_K(ordinal - bias), emb_K strictly increasing from at most [-32768, 32767] into the values of K in the order of the parquet format (signed; unsigned for UINT; IEEE numeric for float / double, no NaN, the zero written as -0 in every other row; unsigned lexicographic bytes, a proper prefix first; signed big-endian two's complement for DECIMAL on bytes, 3..8 bytes on byte arrays) and spread over the whole width: ordinal * 2^16 (2^48) plus hashed low bits for 32 (64) bit integers, negative ordinals to negative values / to the lower half of the unsigned range / to bytes below 0x80, float bit patterns from subnormals to 3e38 (1e308), times of day over the whole day (neighbouring TIME(NANOS) ordinals differ above bit 30), byte strings of 2..23 bytes (longer than the 16 bytes a column index keeps), the two halves of 16-byte values both significant; the bias is an ordinal present in the case (three times in four), the ordinals are clamped into the domain of the kind (boolean: two values). types.go checks at start, exhaustively over every domain, that emb_K is strictly increasing for the harness comparator and survives parquet.Value. Every output row is decoded to Go values (Value.Int32 / Int64 / Float / Double / Boolean / ByteArray), must be bit for bit the value written in that row (row-mangled), and the sortedness is decided by the harness comparator on those values (not Type.Compare). Nested inputs (nested/depth=N, corpus/nested): the inputs of MergeRowGroups given as a forest over the sorted inputs of the case - merge (MergeRowGroups of the children), dedupe (with DropDuplicatedRows), multi (MultiRowGroup of consecutive pieces of one sorted sequence), convert (ConvertRowGroup to the schema of the merge of a subtree built in a wider schema: two more columns, one before the sorting columns), wide (that subtree handed over as it is) - one to three levels, 2-4 roots, leaves buffers or files, with and without DropDuplicatedRows / refinement at the root; corpus: merge(merge(A[0..99],B[40..59]),C[70..79]) (4f9d711) in nine shapes over buffers and files. Every node is read through its own Rows() and checked: a leaf / multi node delivers the rows written in order, a merge / dedupe node and the root (Rows() and the file written with WriteRowGroup) satisfy the statement at the level of the leaves: sorted, whole rows of the leaves below, none twice, every leaf's rows in their order, keys = the keys the inputs must deliver (one per distinct key under a dedupe). The plan of the root (without DropDuplicatedRows, refinement enabled) is compared with the model (corr:C09.refine, c09.nrefine = Merge/Nested.v c09_refine_nested): the harness tells the model which inputs have computed rows (dynamic type not a Buffer / FileRowGroup / row-range view / conversion of one) - then one element holding every input whole - and otherwise the model is c09_refine. Sorting columns below optional groups (nestkey/groups=N,leaf=..,nulls=..; five of the key configurations of every random section; two of the ten of the large random cases): the sorting column is the leaf v below one or two optional groups (k<j>.v, k<j>.g.v; SortingColumn paths of two and three names), the leaf required or optional - maximum definition level 1, 2 or 3 - and a null key is a null at a definition level below the maximum: any level (a function of seed, input and row), level 0 only, or the intermediate levels only (some group present, something below it null); first column of that shape, 0-2 further columns of random nesting; through MergeRowReaders (2 and 3-6 readers), MergeRowGroups over buffers / files with small pages / both / with DropDuplicatedRows / refinement disabled, DedupeRowReader and forests of nested inputs, over the overlap patterns (disjoint non-null ranges twice as often: the inputs whose nulls must still be merged); every output row must hold its null at the level it was written with (row-mangled). The models see a null as a null (None) whatever its level. Concatenations (nested/concat, and the multi nodes of every forest): a multi node is cut into 2-3 consecutive pieces at uniform positions, one cut in three moved to the start / the end / another cut (empty members first, last, in the middle), and a piece - empty or not - is, one time in three and down to three levels, a concatenation of its own pieces: MultiRowGroup(A, MultiRowGroup(B, empty)) and the like, as they are or (one in four) handed over by a merge of their own / ConvertRowGroup / in the wider schema, merged with 1-3 other inputs of overlapping key ranges; the shapes reached are counted in a note. Every other large random case turns one input (each other input one time in two) into a MultiRowGroup of 2-3 files of different row counts cut at uniform rows (one in four with the last two in a concatenation of their own): the plan of the root is compared with c09_refine given the concatenated page layout Go reports, a concatenation of leaves having a fixed row sequence (offsets of its parts = position in the concatenation). The property predicate (sorted, multiset = union with whole rows intact, per-input order; dedupe: one row per distinct key, each an input row) is evaluated on every output with the harness's own comparator. A case is one (inputs, scripts, options); non-trivial = at least two non-empty inputs (dedupe: one); distinct by the JSON of the case."
 
 	var vm []string
 	vmRows := 0
@@ -3096,6 +3220,118 @@ func runC09(c *core.Ctx) {
 			c09Run(c, cs, "corpus/nested")
 		}
 	}
+	// ---- sorting columns below optional groups: maximum definition level 1..3 (one or two optional groups
+	// around a required or optional leaf), the nulls at any level / at level 0 only / at the intermediate
+	// levels only, through every kind of merge
+	for _, sh := range []struct {
+		nest     int
+		optional bool
+	}{{1, false}, {1, true}, {2, false}, {2, true}} {
+		for nullDef := 0; nullDef < 3; nullDef++ {
+			for v := 0; v < c.N(32, 160); v++ {
+				cols := c09GenNestCols(c.Rng.Intn, sh.nest, sh.optional, nullDef)
+				pattern := []string{"random", "disjoint", "disjoint", "touching", "nested", "chain", "identical", "dense", "runs"}[c.Rng.Intn(9)]
+				lens := c09Lens[:len(c09Lens)-6]
+				cs := &c09Case{Cols: cols, ExtraSeed: 1 + int64(c.Rng.Intn(1<<30)), Batches: c09GenBatches(c), Note: pattern}
+				way := v % 8
+				switch way {
+				case 0:
+					cs.Kind, cs.Inputs = "readers", c09GenInputs(c, cols, 2, pattern, lens)
+				case 1:
+					cs.Kind, cs.Inputs, cs.Chunks = "readers", c09GenInputs(c, cols, 3+c.Rng.Intn(4), pattern, lens), c09GenChunks(c, 6)
+				case 2, 3, 4, 5:
+					cs.Kind, cs.Inputs, cs.PageBuf = "groups", c09GenInputs(c, cols, 2+c.Rng.Intn(3), pattern, lens), []int{64, 128, 300}[c.Rng.Intn(3)]
+					for range cs.Inputs {
+						cs.Backing = append(cs.Backing, []string{"buffer", "file", []string{"buffer", "file"}[c.Rng.Intn(2)], "buffer"}[way-2])
+					}
+					cs.Dedupe, cs.NoRefine, cs.Batches = way == 5 && c.Rng.Intn(2) == 0, c.Rng.Intn(5) == 0, cs.Batches[:1]
+				case 6:
+					cs.Kind, cs.Inputs, cs.Chunks = "dedupe", c09GenInputs(c, cols, 1, "dense", lens), c09GenChunks(c, 1)
+				default:
+					cs.Kind, cs.Batches, cs.PageBuf = "groups", cs.Batches[:1], 128
+					var stock [][]c09Key
+					cs.Tree = c09GenForest(c.Rng.Intn, func() []c09Key {
+						if len(stock) == 0 {
+							stock = c09GenInputs(c, cols, 8, pattern, lens)
+						}
+						ks := stock[0]
+						stock = stock[1:]
+						return ks
+					}, &cs.Inputs, 1+c.Rng.Intn(2))
+					for range cs.Inputs {
+						cs.Backing = append(cs.Backing, []string{"buffer", "file"}[c.Rng.Intn(2)])
+					}
+				}
+				if c.Rng.Intn(5) == 0 {
+					cs.Extras, _ = c09GenExtras(c.Rng.Intn, 2)
+				}
+				c09MaybeKinds(c, cs, 5)
+				opt := "required"
+				if sh.optional {
+					opt = "optional"
+				}
+				c09Run(c, cs, fmt.Sprintf("nestkey/groups=%d,leaf=%s,nulls=%s", sh.nest, opt, []string{"any-level", "level-0", "intermediate"}[nullDef]))
+				if v == 2 && nullDef == 2 && sh.nest == 1 && sh.optional {
+					c.Sample(cs)
+				}
+			}
+		}
+	}
+
+	// ---- concatenations nested in concatenations with empty members at every position, as inputs of a merge
+	// with one to three other inputs whose keys overlap theirs
+	concatShapes := map[string]int{}
+	for i := 0; i < c.N(400, 4000); i++ {
+		cols := c09ColConfigs[c.Rng.Intn(len(c09ColConfigs))]
+		pattern := []string{"random", "random", "chain", "nested", "identical", "touching"}[c.Rng.Intn(6)]
+		stock := c09GenInputs(c, cols, 5, pattern, c09Lens[4:len(c09Lens)-6])
+		cs := &c09Case{Kind: "groups", Cols: cols, Batches: c09GenBatches(c)[:1], PageBuf: []int{0, 64, 128, 300}[c.Rng.Intn(4)],
+			Dedupe: c.Rng.Intn(6) == 0, NoRefine: c.Rng.Intn(6) == 0, Note: pattern + " concat"}
+		leaf := func(keys []c09Key) c09Node {
+			cs.Inputs = append(cs.Inputs, keys)
+			return c09Node{Op: "leaf", Leaf: len(cs.Inputs) - 1}
+		}
+		nc := 1 + c.Rng.Intn(2)
+		others := 1 + c.Rng.Intn(3-nc+1)
+		for j := 0; j < nc+others; j++ {
+			switch {
+			case j < nc && c.Rng.Intn(4) == 0:
+				// the concatenation handed over by a merge of its own, or converted from the wider schema
+				op := []string{"merge", "convert", "wide"}[c.Rng.Intn(3)]
+				cs.Tree = append(cs.Tree, c09Node{Op: op, Kids: []c09Node{c09GenConcat(c.Rng.Intn, stock[j], leaf, 0)}})
+			case j < nc:
+				cs.Tree = append(cs.Tree, c09GenConcat(c.Rng.Intn, stock[j], leaf, 0))
+			default:
+				cs.Tree = append(cs.Tree, leaf(stock[j]))
+			}
+		}
+		c.Rng.Shuffle(len(cs.Tree), func(a, b int) { cs.Tree[a], cs.Tree[b] = cs.Tree[b], cs.Tree[a] })
+		mode := c.Rng.Intn(3)
+		for range cs.Inputs {
+			b := "buffer"
+			if mode == 1 || (mode == 2 && c.Rng.Intn(2) == 0) {
+				b = "file"
+			}
+			cs.Backing = append(cs.Backing, b)
+		}
+		c09MaybeExtras(c, cs, 2)
+		c09MaybeKinds(c, cs, 5)
+		shape := map[string]bool{}
+		c09ConcatShape(cs.Tree, 0, cs, shape)
+		for k := range shape {
+			concatShapes[k]++
+		}
+		bucket := "nested/concat"
+		if shape["multi-in-multi"] {
+			bucket = "nested/concat(multi in multi)"
+		}
+		c09Run(c, cs, bucket)
+		if i == 0 {
+			c.Sample(cs)
+		}
+	}
+	c.Note("concatenation cases by shape (a case counts once per shape it has): %v", concatShapes)
+
 	nNested := c.N(500, 8000)
 	nestedOps := map[string]int{}
 	for i := 0; i < nNested; i++ {
@@ -3150,6 +3386,9 @@ func runC09(c *core.Ctx) {
 			}
 		} else {
 			proto = c09GenBig(c)
+			if i%4 == 2 {
+				c09SplitIntoConcats(c.Rng.Intn, proto)
+			}
 		}
 		var keysRefined []c09Out
 		for _, noRefine := range []bool{false, true} {
